@@ -32,6 +32,7 @@ type webOpts struct {
 	VerifyDefault    bool     `json:"verify_client_ip_left_to_default,omitempty"`
 	Instance         int      `json:"instance,omitempty"` // distinguishes otherwise equal instances
 	RandomKeys       bool     `json:"random_session_keys,omitempty"`
+	AlsoNTLM         bool     `json:"ntlm_also_enabled,omitempty"` // authentication: [openid, ntlm] (NTLM guards the tunnel endpoint only)
 }
 
 const gatewayHostName = "gw.example.test:8443"
@@ -42,6 +43,9 @@ func webConfig(o webOpts) gwproc.Config {
 	c.Set("Server", "Tls", "disable").Set("Server", "GatewayAddress", gatewayHostName).
 		Set("Server", "Hosts", o.Hosts).Set("Server", "HostSelection", o.HostSelection).
 		Set("Server", "SessionStore", o.Store).Set("Server", "Authentication", []string{"openid"})
+	if o.AlsoNTLM {
+		c.Set("Server", "Authentication", []string{"openid", "ntlm"}).Set("Server", "AuthSocket", c05Auth().Socket)
+	}
 	if !o.RandomKeys {
 		c.Set("Server", "SessionKey", key32a).Set("Server", "SessionEncryptionKey", key32b)
 	}
